@@ -8,7 +8,7 @@ n = int(sys.argv[2]) if len(sys.argv) > 2 else 200
 seed = int(sys.argv[3]) if len(sys.argv) > 3 else 1
 show = int(sys.argv[4]) if len(sys.argv) > 4 else 3
 ctx = vlib.Ctx("dev", "quick")
-exe = ctx.build_harness("server")
+exe = ctx.build_harness("server", only=["zz_verif_engine_test.go", "zz_verif_engine_monitor_test.go"])
 outdir = ctx.run_harness(exe, mode, n, seed=seed, extra={"VERIF_OPS": os.environ.get("VERIF_OPS", "40")})
 if not outdir:
     print(ctx.broken); sys.exit(1)
@@ -31,6 +31,9 @@ import json
 for l in open(os.path.join(outdir, mode + ".mon")):
     mon[json.loads(l)["signature"]] += 1
 print("monitor:", dict(mon))
+sp = os.path.join(outdir, mode + ".stats")
+if os.path.exists(sp):
+    print("stats:", open(sp).read())
 ctx.cleanup()
 if os.environ.get("SHOWMON"):
     pass
